@@ -3,7 +3,10 @@ package main
 import (
 	"encoding/hex"
 	"fmt"
+	"math/big"
 	"os"
+	"os/exec"
+	"time"
 	"go/types"
 	"sort"
 	"strings"
@@ -377,6 +380,60 @@ func init() {
 			}
 		}
 		w.Cells[p.Cell] = setPath(w.Cells[p.Cell], path, val)
+		return nil
+	}
+	harnessAPI["vIntMode"] = func(e *Engine, st *State, a []Value, ci ssa.CallInstruction) Value {
+		e.intMode = a[0].(Bool).T.IsTrue()
+		return nil
+	}
+	// vAssertModL(out, label, parts...): little-endian value of out is
+	//   1 part : part mod l
+	//   3 parts: (a*b + c) mod l
+	// and all integer-mode side obligations collected so far hold
+	harnessAPI["vAssertModL"] = func(e *Engine, st *State, a []Value, ci ssa.CallInstruction) Value {
+		wasInt := e.intMode
+		e.intMode = false
+		defer func() { e.intMode = wasInt }()
+		label := e.cstr(st, a[1])
+		le := func(v Value) *Term {
+			sl := v.(Slice)
+			n := st.concreteSize(sl.Len, "vAssertModL")
+			arr := st.obj(sl.Obj).Arr
+			var terms []*Term
+			for i := 0; i < n; i++ {
+				b := e.intOfByte(Select(arr, BVAdd(sl.Off, U64(uint64(i)))))
+				terms = append(terms, IntOp("*", b, IntC(pow2(8*i))))
+			}
+			return IntOp("+", terms...)
+		}
+		vout := le(a[0])
+		ps := a[2].(Slice)
+		np := st.concreteSize(ps.Len, "vAssertModL parts")
+		po := st.obj(ps.Obj)
+		var want *Term
+		switch np {
+		case 1:
+			want = le(po.Cells[0])
+		case 3:
+			want = IntOp("+", IntOp("*", le(po.Cells[0]), le(po.Cells[1])), le(po.Cells[2]))
+		default:
+			panic(abortSignal{"vAssertModL: 1 or 3 parts"})
+		}
+		l, _ := new(big.Int).SetString("7237005577332262213973186563042994240857116359379907606001950938285454250989", 10)
+		L := IntC(l)
+		ctx := append(append([]*Term(nil), st.pc...), e.intAxioms...)
+		e.dischargeInt(st, ctx, label)
+		goals := []struct {
+			name string
+			t    *Term
+		}{
+			{label + ":congruent-mod-l", Eq(IntOp("mod", IntOp("-", want, vout), L), IntC64(0))},
+			{label + ":non-negative", IntCmp("<=", IntC64(0), vout)},
+			{label + ":below-l", IntCmp("<", vout, L)},
+		}
+		for _, g := range goals {
+			e.intGoal(st, ctx, g.t, g.name, "assert")
+		}
 		return nil
 	}
 	harnessAPI["vExpectPanic"] = func(e *Engine, st *State, a []Value, ci ssa.CallInstruction) Value {
@@ -892,4 +949,78 @@ func (r *HarnessResult) finalize() {
 		st = "inconclusive"
 	}
 	r.Status = st
+}
+
+// intGoal decides ctx => goal with z3 (incremental) and, if that is inconclusive, cvc5 on a file.
+func (e *Engine) intGoal(st *State, ctx []*Term, goal *Term, label, kind string) string {
+	rec := AssertRec{Label: label, Pos: posOf(st, e), Kind: kind}
+	r := e.solver.Check(ctx, Not(goal), 20000)
+	how := "z3"
+	if r == Unknown {
+		r = runCVC5(append(append([]*Term(nil), ctx...), Not(goal)), 60)
+		how = "cvc5"
+	}
+	switch r {
+	case Unsat:
+		rec.Result = "proved"
+	case Sat:
+		rec.Result = "violated"
+		rec.Msg = "decided by " + how
+		_, rec.Cex = e.model(st, nil, 5000)
+	default:
+		rec.Result = "unknown"
+		rec.Msg = "neither z3 (20 s) nor cvc5 (60 s) decided this obligation"
+	}
+	e.addAssert(rec)
+	return rec.Result
+}
+
+// dischargeInt proves the collected fits-in-type / bit-disjointness obligations in batches.
+func (e *Engine) dischargeInt(st *State, ctx []*Term, label string) {
+	obs := e.intObligs
+	e.intObligs = nil
+	const batch = 40
+	n := 0
+	for i := 0; i < len(obs); i += batch {
+		j := i + batch
+		if j > len(obs) {
+			j = len(obs)
+		}
+		var ts []*Term
+		for _, o := range obs[i:j] {
+			ts = append(ts, o.T)
+		}
+		res := e.intGoal(st, ctx, And(ts...), fmt.Sprintf("%s:int-obligations[%d..%d)", label, i, j), "assert")
+		if res != "proved" {
+			// split to find the culprit
+			for _, o := range obs[i:j] {
+				e.intGoal(st, ctx, o.T, fmt.Sprintf("%s:%s@%s", label, o.Kind, o.Pos), "assert")
+			}
+		}
+		n += j - i
+	}
+	e.res.Bounds["int_obligations"] += n
+}
+
+func runCVC5(asserts []*Term, seconds int) Result {
+	txt := Script(asserts, "(set-logic ALL)\n")
+	f, err := os.CreateTemp("/verif/tmp", "cvc5_*.smt2")
+	if err != nil {
+		return Unknown
+	}
+	f.WriteString(txt)
+	f.Close()
+	defer os.Remove(f.Name())
+	cmd := exec.Command("timeout", fmt.Sprintf("%d", seconds+5), "cvc5", fmt.Sprintf("--tlimit=%d", seconds*1000), f.Name())
+	t0 := time.Now()
+	out, _ := cmd.CombinedOutput()
+	_ = t0
+	s := string(out)
+	switch {
+	case len(s) >= 5 && s[:5] == "unsat":
+		return Unsat
+	case len(s) >= 3 && s[:3] == "sat":
+		return Sat
+	}
+	return Unknown
 }
